@@ -9,10 +9,12 @@ names=("$@"); [ ${#names[@]} -eq 0 ] && names=($(ls seeded | grep -v '\.' | grep
 out="seeded/RESULTS.tsv"; tmp="$(mktemp)"
 for n in "${names[@]}"; do
   id="${n%%-*}"
-  log="$(./tools/try_seed.sh "$n" "$id" 2>&1)"
-  unl="$(echo "$log" | grep -oE "unlisted=[0-9]+" | tail -1 | cut -d= -f2)"
+  # seeded/<name>/checks.txt may name the checks to run (default: the check of the property in the name)
+  ids="$id"; [ -f "seeded/$n/checks.txt" ] && ids="$(cat "seeded/$n/checks.txt")"
+  log="$(./tools/try_seed.sh "$n" $ids 2>&1)"
+  unl="$(echo "$log" | grep -oE "unlisted=[0-9]+" | sort -t= -k2 -n | tail -1 | cut -d= -f2)"
   fp="$(echo "$log" | grep -m1 "fingerprint:" | sed 's/.*fingerprint: //')"
-  if echo "$log" | grep -q "^VIOLATION property=$id"; then st=caught; else st=MISSED; fi
+  if echo "$log" | grep -q "^VIOLATION property="; then st=caught; else st=MISSED; fi
   printf "%s\t%s\t%s\t%s\t%s\n" "$n" "$id" "$st" "${unl:-?}" "$fp" | tee -a "$tmp"
 done
 if [ $# -eq 0 ]; then mv "$tmp" "$out"; else cat "$tmp"; rm -f "$tmp"; fi
